@@ -205,7 +205,10 @@ def C10(tier):
                      extra_cfg=dict(env_model=None, text_patches=KEYTAB16['text_patches']), unwind=18, timeout=7200, mem_gb=16,
                      bounds=dict(key_table='scaled to 16 cells (enumerator patch myth_tls_tree_depth 3 -> 0)', threads='T0: create, create; T1: create, create, delete, create')))
     if tier == 'thorough':
-        jobs += [ajob('tree.k3', 'harness/C10_tree.c', ['-DNK=3', '-DNPOOL=13', '-DGARBAGE=1'], unwind=18, timeout=7200, mem_gb=24, bounds=dict(keys='3 stored keys + 1 queried key'))]
+        # tree.k3 (3 stored keys): no verdict in 2 h, not in the tier
+        jobs += [ajob('tree.k2.garbage', 'harness/C10_tree.c', ['-DNK=2', '-DNPOOL=9', '-DGARBAGE=1'], unwind=18, timeout=5400, mem_gb=16, bounds=dict(keys='2 stored keys + 1 queried key; pool nodes hold arbitrary previous contents')),
+                 ajob('keyalloc.seq.a63', 'harness/C10_keyalloc_seq.c', ['-DKA_A=63', '-DKA_B=0'], unwind=6, timeout=900, cfg=KEYTAB64, bounds=dict(key_table='scaled to 64 cells (see keyalloc.seq.a5)', state='free list 63 -> 0')),
+                 ajob('keyalloc.seq.a1', 'harness/C10_keyalloc_seq.c', ['-DKA_A=1', '-DKA_B=2'], unwind=6, timeout=900, cfg=KEYTAB64, bounds=dict(key_table='scaled to 64 cells (see keyalloc.seq.a5)', state='free list 1 -> 2'))]
     return dict(jobs=jobs, assumptions=A_ASSUME + ['tree nodes come from typed static pools standing for real_malloc'],
                 functions=['myth_tls_tree_get', 'myth_tls_tree_set', 'myth_tls_tree_init', 'myth_tls_key_allocator_alloc', 'myth_tls_key_allocator_dealloc'])
 
@@ -287,7 +290,7 @@ def C02(tier):
             dj('deque.pushpop_take.tso.r3', 8, T2, 3, True), dj('deque.pop_take_take.tso.r3', 3, T3, 3, True),
             dj('deque.trypass_lower_boundary.sc.r3', 9, T2, 3, False, cap=4)]
     if tier == 'thorough':
-        jobs += [dj('deque.pop2_take.tso.r5', 0, T2, 5, True, timeout=10000, mem=20), dj('deque.3elem.tso.r4', 2, T2, 4, True, timeout=10000, mem=20),
+        jobs += [dj('deque.pop2_take.tso.r5', 0, T2, 5, True, timeout=10000, mem=20), dj('deque.3elem.tso.r3', 2, T2, 3, True, timeout=10000, mem=20),   # deque.3elem.tso.r4: no verdict in 2 h, not in the tier
                  dj('deque.push_take2.tso.r3', 1, T2, 3, True, timeout=10000, mem=20),
                  dj('deque.recentre_push.tso.r3', 4, T2, 3, True, cap=4, timeout=10000, mem=20), dj('deque.recentre_put.tso.r3', 5, T2, 3, True, cap=4, timeout=10000, mem=20),
                  dj('deque.trypass.tso.r3', 6, T2, 3, True, timeout=10000, mem=20), dj('deque.peek.tso.r3', 7, T2, 3, True, timeout=10000, mem=20),
@@ -349,8 +352,8 @@ def cj(name, create, finish, reap, nchild, rounds, timeout=2400, mem=12, preempt
 def C01(tier):
     jobs = [cj('cj.null.ret.join.r2', 0, 0, 0, 1, 2), cj('cj.null.exit.join.r2', 0, 1, 0, 1, 2), cj('cj.parentfirst.ret.join.r2', 2, 0, 0, 1, 2)]
     if tier == 'thorough':
-        jobs += [cj('cj.null.ret.join.r3', 0, 0, 0, 1, 3, timeout=14000, mem=16), cj('cj.null.ret.join.r4', 0, 0, 0, 1, 4, timeout=14000, mem=16), cj('cj.attr.exit.join.r2', 1, 1, 0, 1, 2, timeout=14000, mem=30), cj('cj.parentfirst.exit.join.r4', 2, 1, 0, 1, 4, timeout=14000, mem=16),
-                 cj('cj.null.exit.join.2children.r3', 0, 1, 0, 2, 3, timeout=14000, mem=20), cj('cj.null.ret.join.r3.all', 0, 0, 0, 1, 3, timeout=14000, mem=20, preempt='all')]
+        jobs += [cj('cj.null.ret.join.r3', 0, 0, 0, 1, 3, timeout=14000, mem=16), cj('cj.null.ret.join.r4', 0, 0, 0, 1, 4, timeout=14000, mem=16), cj('cj.parentfirst.exit.join.r4', 2, 1, 0, 1, 4, timeout=14000, mem=16)]
+        # not in the tier (no verdict when tried, see DESIGN 10.6): cj.attr.exit.join.r2 (custom stack size: out of memory at 30 GB), cj.null.exit.join.2children.r3 and cj.null.ret.join.r3.all (> 45 min)
     return dict(jobs=jobs, assumptions=RICH_ASSUME,
                 functions=['myth_create_ex_body', 'myth_create_1', 'myth_entry_point', 'myth_entry_point_cleanup', 'myth_entry_point_1', 'myth_entry_point_2', 'myth_exit_body', 'myth_join_body', 'myth_join_1', 'myth_join_2', 'myth_join_3',
                            'myth_thread_attr_init_body', 'init_myth_thread_struct', 'get_new_myth_thread_struct_desc', 'get_new_myth_thread_struct_stack', 'free_myth_thread_struct_desc', 'free_myth_thread_struct_stack', 'myth_tls_tree_init', 'myth_tls_tree_fini'])
@@ -358,7 +361,7 @@ def C13(tier):
     jobs = [cj('reap.tryjoin.r2', 0, 0, 1, 1, 2), cj('reap.detach.r2', 0, 0, 2, 1, 2), cj('reap.attr_detached.r2', 3, 0, 3, 1, 2)]
     if tier == 'thorough':
         jobs += [cj('reap.tryjoin.r3', 0, 0, 1, 1, 3, timeout=14000, mem=16), cj('reap.detach.r3', 0, 0, 2, 1, 3, timeout=14000, mem=16), cj('reap.tryjoin.r4', 0, 0, 1, 1, 4, timeout=14000, mem=16), cj('reap.detach.r4', 0, 0, 2, 1, 4, timeout=14000, mem=16), cj('reap.attr_detached.r4', 3, 0, 3, 1, 4, timeout=14000, mem=16),
-                 cj('reap.detach.exit.parentfirst.r4', 2, 1, 2, 1, 4, timeout=14000, mem=16), cj('reap.detach.r3.all', 0, 0, 2, 1, 3, timeout=14000, mem=20, preempt='all')]
+                 cj('reap.detach.exit.parentfirst.r4', 2, 1, 2, 1, 4, timeout=14000, mem=16)]   # reap.detach.r3.all: no verdict in 45 min, not in the tier
     return dict(jobs=jobs, assumptions=RICH_ASSUME,
                 functions=['myth_tryjoin_body', 'myth_detach_body', 'myth_join_body', 'myth_create_ex_body', 'myth_entry_point_cleanup', 'myth_entry_point_1', 'myth_entry_point_2', 'free_myth_thread_struct_desc', 'free_myth_thread_struct_stack'])
 
